@@ -143,4 +143,32 @@ theorem resolved_to_item (ho : HashOrder) (files : List FileResult) (syn : List 
   obtain ⟨fr, hfr, a, ha, hk⟩ := defined_from_project _ _ _ hget
   exact ⟨fr, (ho.perm files).mem_iff.mp hfr, a, ha, hk, by rw [item_qname_is_key, hk]⟩
 
+/-! ### `get_details` / `get_signature` (the text shown for a symbol) -/
+
+theorem Ty.strList_eq (l : List Ty) : Ty.strList l = l.map Ty.str := by
+  induction l with
+  | nil => rfl
+  | cons t ts ih => simp [Ty.strList, ih]
+
+/-- the printed form of a type: its name, followed — at every depth — by its parameters in source
+    order between `<` and `>`, separated by `, ` -/
+theorem Ty.str_eq (t : Ty) :
+    t.str = if t.gens.isEmpty then t.name else t.name ++ "<" ++ joinWith ", " (t.gens.map Ty.str) ++ ">" := by
+  obtain ⟨n, k, g, s, f⟩ := t
+  rw [Ty.str, Ty.strList_eq]
+  rfl
+
+/-- for a type symbol both texts are the printed type -/
+theorem type_details_is_signature (t : Ty) : (Symbol.type t).details = some (Symbol.type t).signature := rfl
+
+/-- the signature of an argument is its details followed by the name, when it has one -/
+theorem arg_signature (a : Arg) (m : Method) :
+    (Symbol.arg a m).signature = (match (Symbol.arg a m).details with | some d => d | none => "")
+      ++ (match a.name with | some s => " " ++ s | none => "") := rfl
+
+/-- the signature of a method lists the signatures of its arguments in order -/
+theorem method_signature (m : Method) (i : Interface) :
+    (Symbol.method m i).signature
+      = m.returnType.str ++ " " ++ m.name ++ "(" ++ joinWith ", " (m.args.map fun a => (Symbol.arg a m).signature) ++ ")" := rfl
+
 end Aidl.Props.C17
